@@ -94,6 +94,8 @@ def job(spec):
     top = {1: 2, 2: 4, 4: 16, 8: 256, 32: 256}[nbits]
     if spec["data"] == "identity":
         data = (np.arange(n * c, dtype=np.int64) % top).reshape(n, c)
+    elif spec["data"] == "const":   # every tile mean is exactly an integer: the reduction to the output depth has nothing to round
+        data = np.full((n, c), 1 + spec["seed"] % (top - 1) if top > 2 else 1, dtype=np.int64)
     elif spec["data"] == "mid":     # values well inside the range (zero-DM stays representable)
         data = rng.integers(top // 4, max(top // 4 + 2, 3 * top // 4), size=(n, c), dtype=np.int64)
         data = np.minimum(data, top - 1)
@@ -172,6 +174,12 @@ def job(spec):
             rec["outcome"] = f"raise:{type(exc).__name__}"
             rec["msg"] = str(exc)[:100]
         # files on disk at return time (the writer objects may still be open: that is the point)
+        at_return = {}
+        for w in (_log or []):            # every file the call wrote to, as it is on disk when the call returns
+            try:
+                at_return[w["file"]] = os.path.getsize(w["file"])
+            except OSError:
+                at_return[w["file"]] = 0
         rec["outs"] = [read_output(o, want_q=(op in ("downsample", "zerodm"))) for o in outs]
         rec["outnames"] = [os.path.basename(o) for o in outs]
         wl = _log
@@ -193,7 +201,7 @@ def job(spec):
         if spec.get("keep_snapshots"):
             import gc
             gc.collect()
-            rec["c20"] = [c20_material(d, w, fname) for fname, w in wfiles.items()]
+            rec["c20"] = [c20_material(d, w, fname, at_return.get(fname)) for fname, w in wfiles.items()]
         rec["in_hdr"] = in_hdr
         recs.append(rec)
     fil._file.close()
@@ -221,7 +229,7 @@ def _reopen(d, raw, tag):
         p.unlink(missing_ok=True)
 
 
-def c20_material(d, evs, fname):
+def c20_material(d, evs, fname, size_at_return=None):
     fin = Path(fname).read_bytes() if Path(fname).exists() else b""
     try:
         hd, hl = fixtures.parse_sigproc(fin)
@@ -245,6 +253,8 @@ def c20_material(d, evs, fname):
     for cut in cuts:
         ro = _reopen(d, fin[: hl + cut], f"{os.getpid()}_t{cut}")
         out["truncs"].append({"cut": cut, "ro_ok": ro["ok"], "ro_ns": ro["ns"], "ro_vals": ro["vals"]})
-    out["size_at_return"] = evs[-1]["size"] if evs else 0
+    # measured on the file itself when the call returned (not inferred from the last intercepted write: a writer may
+    # legitimately put bytes on disk through another route)
+    out["size_at_return"] = size_at_return if size_at_return is not None else (evs[-1]["size"] if evs else 0)
     out["final_size"] = len(fin)
     return out
